@@ -126,6 +126,9 @@ def run_tlc(module, cfg=None, workers=16, env=None, timeout=900, simulate=None, 
             seed=None, coverage=False, extra=(), cwd=SPEC, heap='8g', deadlock=False):
     """Run TLC on spec/<module>.tla with spec/<cfg>; returns TlcResult."""
     md = tempfile.mkdtemp(prefix='md_', dir=scratch_root())
+    # every model / batch finishes in seconds to a few minutes on an idle machine; the limit only bounds a hung
+    # TLC and is kept wide so that a loaded machine (several checks at once) does not turn into a failure
+    timeout = max(int(timeout), int(os.environ.get('VERIF_TLC_MIN_TIMEOUT', '3000')))
     cmd = ['timeout', str(timeout), 'java', '-XX:+UseParallelGC', '-Xss64m', '-Xmx' + heap, '-cp', TLA_CP, 'tlc2.TLC',
            '-workers', str(workers), '-metadir', md, '-noGenerateSpecTE']
     if cfg:
